@@ -71,7 +71,7 @@ def make_spec(env, anchors, reverse=False):
     return spec
 
 
-def compile_font(spec, env):
+def compile_font(spec, env, prev_spec=None):
     import ufo2ft
     from ufo2ft.featureWriters import (CursFeatureWriter, GdefFeatureWriter, KernFeatureWriter,
                                        MarkFeatureWriter)
@@ -84,9 +84,13 @@ def compile_font(spec, env):
     if "group" in env:
         kw["groupMarkClasses"] = True
     opts = {}
-    if kw:
+    if kw or prev_spec is not None:
         opts["featureWriters"] = [KernFeatureWriter, MarkFeatureWriter(**kw), GdefFeatureWriter,
                                   CursFeatureWriter]
+    if prev_spec is not None:
+        # call history on the writer objects: the same instances first compile another font
+        opts["featureWriters"] = [w() if isinstance(w, type) else w for w in opts["featureWriters"]]
+        ufo2ft.compileTTF(B.build_font(prev_spec), useProductionNames=False, featureWriters=opts["featureWriters"])
     return O.reload(ufo2ft.compileTTF(font, useProductionNames=False, **opts))
 
 
@@ -243,6 +247,10 @@ class C06(Property):
         for seed in self.SEEDS:
             for e in ENVS:
                 out.append([{"env": e, "seed": len(seed)}] + seed)
+        # writer objects that already compiled another (rich) font
+        for pi in (0, 2, 3):
+            for e in ([], ["group"], ["categories"]):
+                out.append([{"env": e, "prev": pi}])
         return out
 
     def ops(self, h, b):
@@ -254,6 +262,8 @@ class C06(Property):
             maxd = b["env_depth"] + 1  # mark-class grouping needs >= 4 anchors to have something to group
         if "seed" in head:
             maxd = head["seed"] + 2
+        if head.get("prev") is not None:
+            maxd = 3  # two anchors on top of the history
         if len(h) >= maxd:
             return
         last = (OPS.index((anc[-1][0], anc[-1][1])) if anc and "seed" not in head else -1)
@@ -286,7 +296,11 @@ class C06(Property):
         counters = {"pairs_evaluated": 0, "pairs_with_candidates": 0, "ambiguous_pairs": 0,
                     "ligature_components_evaluated": 0, "ligature_components_with_candidates": 0,
                     "half_coordinate_attachments": 0, "order_confluence_checked": 0}
-        tt = compile_font(spec, env)
+        prev = None
+        if head.get("prev") is not None:
+            prev = make_spec(env, self.SEEDS[head["prev"]])
+            counters["writer_reuse_states"] = 1
+        tt = compile_font(spec, env, prev_spec=prev)
         viols, table = evaluate(tt, spec, env, counters)
         if 2 <= len(anc) <= 3 and not env:
             # confluence: the same anchors inserted in the opposite order give the same tables
